@@ -414,7 +414,7 @@ Print Assumptions C11_bulk_then_stream_store_converges_partial.
 
 (* Historical (fixed in cd04fe0): without the coverage hypothesis — capacity 2, three sessions created, fresh standby,
    bulk sync — session 1 is missing on the standby *)
-Definition before_cd04fe0 : flags := mkflags false true false false false true.
+Definition before_cd04fe0 : flags := mkflags false true false false false true true true.
 Theorem C11_bulk_window_before_cd04fe0_refuted :
   exists cap evs1,
   let y := sys_run before_cd04fe0 (sys_init cap [1%N] ex_reg) (ev_ops evs1 ++ [OBulk 1]) in
@@ -440,3 +440,20 @@ Proof.
   apply window_covers_unwrapped. vm_compute. lia.
 Qed.
 Print Assumptions C11_bulk_nonvacuous.
+
+(* Open finding bulk-sync-cannot-convey-missed-delete (/repo HEAD, flag f_lagdel): the standby holds session 1, the
+   DELETE is not delivered, a bulk sync follows (FromSequence = 1) and the stream is delivered to the end — the
+   session and its lease stay on the standby for ever.  The repaired model (a snapshot means "replace all", and the
+   window is replayed only when it holds no DELETE the standby still needs) converges on the same history. *)
+Theorem C11_bulk_lagging_head_refuted :
+  exists ops,
+  let y := sys_run head (sys_init 8 [1%N] ex_reg) ops in
+  next_of y 1 = length (y_sent y) /\ y_panics y = O /\ y_live y = [] /\
+  rc_store (y_recv y) <> expected_store (y_live y) /\ leases_of (rc_reg (y_recv y)) <> [] /\
+  let y' := sys_run repaired (sys_init 8 [1%N] ex_reg) ops in
+  rc_store (y_recv y') = [] /\ leases_of (rc_reg (y_recv y')) = [].
+Proof.
+  exists [OEvent (ex_sess 1 (Some ex_a) 1) false; ODeliver 1; OEvent (ex_sess 1 (Some ex_a) 1) true; OBulk 1; ODeliver 1].
+  vm_compute. repeat split; try reflexivity; discriminate.
+Qed.
+Print Assumptions C11_bulk_lagging_head_refuted.
